@@ -870,12 +870,14 @@ def run(ctx):
             raise tlc.TLCFailure("KeyMap.tla: %s should be violated" % inv)
     kjobs = []
     for keys, order, fed, kcols, take in ((("Keys1", "Order1", "KeysFed1", ["a"], 6 if quick else None)),
-                                          (("Keys2", "Order2", "Keys2", ["a", "b"], None if quick else 3))):
+                                          (("Keys2", "Order2", "Keys2", ["a", "b"], None if quick else 3)),
+                                          (("Keys3", "Order3", "KeysFed3", ["a", "b"], None))):
         kcfg = ctx.cfg("MC_KeyMap_gen.cfg", ("Keys <- Keys1", "Keys <- " + keys), ("KeyOrder <- Order1", "KeyOrder <- " + order),
                        ("FedKeys <- KeysFed1", "FedKeys <- " + fed),
-                       ("MaxRows = 2", "MaxRows = 1" if (quick and keys == "Keys2") else "MaxRows = 2"))
+                       ("MaxRows = 2", "MaxRows = 1" if (quick and keys != "Keys1") else "MaxRows = 2"))
         rk = ctx.tlc("MC_KeyMap", kcfg, workers=1, timeout=1800, label="KeyMap histories (%s)" % keys)
-        order_v = {"Order1": [["x"], ["y"], ["z"]], "Order2": [["a", "2"], ["x", "1"], ["x", "2"]]}[order]
+        order_v = {"Order1": [["x"], ["y"], ["z"]], "Order2": [["a", "2"], ["x", "1"], ["x", "2"]],
+                   "Order3": [["a", "2"], ["x", "11"], ["x1", "1"]]}[order]
         kjobs += keymap.jobs_from(rk.json_lines, kcols, order_v, 3, ctx.seed, take)
     with mpctx.Pool(14) as pool:
         kres = pool.map(keymap.run_history, kjobs, chunksize=8)
